@@ -1,84 +1,10 @@
-(* L6 model: the Go structs of sexpr/ast verbatim, and ast.Compare / Equal / Sort.
-   No proofs in this file (so that the model still evaluates when a proof breaks).
-
-   Go:  type SExpr struct { Pair ptr Pair; Atom ptr Atom }      [ptr-to-SExpr may be nil]
-        type Pair  struct { Car, Cdr ptr SExpr }      [ptr-to-Pair may be nil]
-        type Atom  struct { Str, Symbol ptr string; Float ptr float64; Int ptr int64; Var ptr Variable }
-        type Variable struct { Name string; Index uint64 }
-   Strings are byte lists (strings.Compare is bytewise lexicographic).
-   A float64 other than NaN is represented by its order key in Z (sign-magnitude of the IEEE bits,
-   +0 and -0 both 0): the key is strictly monotone and injective up to Go's ==, which is all that
-   Compare and reflect.DeepEqual observe of a float. int64/uint64 are Z/N (no arithmetic is done on them). *)
+(* L6 model, part 3: what is built on the GENERATED Compare methods (gen/CompareGen.v, translated from
+   sexpr/ast/compare.go on every run): Less, DeepEqual, the reference sort, the exported constructors.
+   No proofs in this file. *)
 From Coq Require Import List NArith ZArith Bool.
+From GMK Require Export SexprTypes.
+From GMK.gen Require Export CompareGen.
 Import ListNotations.
-
-Definition str := list N.
-
-Record var := mkVar { vname : str; vidx : N }.
-
-Record atom := mkAtom {
-  a_str : option str;
-  a_sym : option str;
-  a_flt : option Z;
-  a_int : option Z;
-  a_var : option var }.
-
-Inductive sexpr : Type :=
-| SNull                                         (* nil SExpr pointer *)
-| SNode (p : pairo) (a : option atom)          (* &SExpr{Pair: p, Atom: a} *)
-with pairo : Type :=
-| PNull                                         (* nil Pair pointer *)
-| PCons (car cdr : sexpr).                      (* &Pair{car, cdr} *)
-
-(* `if c := f(); c != 0 { return c }; rest` *)
-Definition lex (c : comparison) (rest : comparison) : comparison :=
-  match c with Eq => rest | _ => c end.
-
-(* the nil-pointer preamble shared by every Compare method and compareXPtr helper *)
-Definition cmp_opt {A} (cmp : A -> A -> comparison) (x y : option A) : comparison :=
-  match x, y with
-  | None, None => Eq
-  | None, Some _ => Lt
-  | Some _, None => Gt
-  | Some a, Some b => cmp a b
-  end.
-
-(* strings.Compare *)
-Fixpoint cmp_str (x y : str) : comparison :=
-  match x, y with
-  | [], [] => Eq
-  | [], _ :: _ => Lt
-  | _ :: _, [] => Gt
-  | a :: x', b :: y' => lex (N.compare a b) (cmp_str x' y')
-  end.
-
-(* Variable.Compare on non-nil receivers *)
-Definition cmp_var (x y : var) : comparison :=
-  lex (cmp_str (vname x) (vname y)) (lex (N.compare (vidx x) (vidx y)) Eq).
-
-(* Atom.Compare on non-nil receivers *)
-Definition cmp_atom (x y : atom) : comparison :=
-  lex (cmp_opt cmp_str (a_str x) (a_str y))
-  (lex (cmp_opt cmp_str (a_sym x) (a_sym y))
-  (lex (cmp_opt Z.compare (a_flt x) (a_flt y))
-  (lex (cmp_opt Z.compare (a_int x) (a_int y))
-  (lex (cmp_opt cmp_var (a_var x) (a_var y)) Eq)))).
-
-(* SExpr.Compare / Pair.Compare *)
-Fixpoint cmp_sexpr (x y : sexpr) {struct x} : comparison :=
-  match x, y with
-  | SNull, SNull => Eq
-  | SNull, SNode _ _ => Lt
-  | SNode _ _, SNull => Gt
-  | SNode p a, SNode q b => lex (cmp_pair p q) (lex (cmp_opt cmp_atom a b) Eq)
-  end
-with cmp_pair (p q : pairo) {struct p} : comparison :=
-  match p, q with
-  | PNull, PNull => Eq
-  | PNull, PCons _ _ => Lt
-  | PCons _ _, PNull => Gt
-  | PCons a d, PCons a' d' => lex (cmp_sexpr a a') (lex (cmp_sexpr d d') Eq)
-  end.
 
 Definition cmp_int (c : comparison) : Z := match c with Lt => (-1)%Z | Eq => 0%Z | Gt => 1%Z end.
 
